@@ -351,10 +351,19 @@ func c03(c *engine.Ctx) {
 			c.Undecided("load-complete", short, "amino.MustUnmarshal call not found")
 			continue
 		}
+		// the decoded entity: the variable whose address is handed to amino.MustUnmarshal
+		var entity types.Object
+		if len(decodeSite.Call.Args) == 2 {
+			entity = gvaRootObj(info, decodeSite.Call.Args[1])
+		}
+		if entity == nil {
+			c.Undecided("load-complete", short, "cannot identify the decoded entity")
+			continue
+		}
 		var rets []*engine.Site
 		engine.InspectBody(f, func(nd ast.Node) {
 			if r, ok := nd.(*ast.ReturnStmt); ok && len(r.Results) == 1 {
-				if id, ok := r.Results[0].(*ast.Ident); ok && id.Name == x.ret {
+				if id, ok := r.Results[0].(*ast.Ident); ok && info.ObjectOf(id) == entity {
 					if s := f.SiteOf(r); s != nil && g.ReachableAfter(decodeSite, s) {
 						rets = append(rets, s)
 					}
@@ -362,22 +371,19 @@ func c03(c *engine.Ctx) {
 			}
 		})
 		c.Floor("load-complete "+short, len(rets), 1)
-		fills := f.CallsTo(x.fill)
-		var inserts []*engine.Site
-		engine.InspectBody(f, func(nd ast.Node) {
-			if as, ok := nd.(*ast.AssignStmt); ok && len(as.Lhs) == 1 {
-				if ix, ok := as.Lhs[0].(*ast.IndexExpr); ok && engine.MentionsName(ix.X, x.cache) {
-					if s := f.SiteOf(as); s != nil {
-						inserts = append(inserts, s)
-					}
-				}
+		fills := engine.Outers(f.DeepCallsTo(2, x.fill))
+		inserts := engine.Outers(f.DeepFind(2, func(fn *engine.Fn, nd ast.Node) bool {
+			as, ok := nd.(*ast.AssignStmt)
+			if !ok || len(as.Lhs) != 1 {
+				return false
 			}
-		})
+			ix, ok := as.Lhs[0].(*ast.IndexExpr)
+			return ok && engine.MentionsName(ix.X, x.cache)
+		}))
 		for _, r := range rets {
 			c.Check("load-complete", short+" "+x.fill[strings.LastIndexByte(x.fill, '.')+1:], r.Pos(), g.MustPass(r, fills), "a decoded entity is returned on a path that skips "+x.fill+" (RefTypes would leak to the VM)")
 			c.Check("load-complete", short+" "+x.cache, r.Pos(), g.MustPass(r, inserts), "a decoded entity is returned without being inserted in "+x.cache+" (two in-memory copies of one persisted object)")
 		}
-		_ = info
 	}
 
 	// (6) realm-boundary exits
@@ -395,7 +401,7 @@ func c03(c *engine.Ctx) {
 		}
 		nret++
 		g := f.Graph()
-		mf := f.CallsTo(c04G + "(*Machine).maybeFinalize")
+		mf := engine.Outers(f.DeepCallsTo(2, c04G+"(*Machine).maybeFinalize"))
 		ok := false
 		for _, s := range f.CallsTo(c04G + "(*Machine).PopFrameAndReturn") {
 			if s.Call.Fun.(*ast.SelectorExpr).Sel == r.Ident {
@@ -407,7 +413,7 @@ func c03(c *engine.Ctx) {
 	c.Floor("finalize-on-return", nret, 3)
 	for _, h := range []string{"doOpReturn", "doOpReturnAfterCopy", "doOpReturnFromBlock"} {
 		if f := c.MustFunc(c04G + "(*Machine)." + h); f != nil {
-			c.Check("finalize-on-return", h+" anchored", f.Pos(), len(f.CallsTo(c04G+"(*Machine).maybeFinalize")) == 1, "return handler must call maybeFinalize exactly once")
+			c.Check("finalize-on-return", h+" anchored", f.Pos(), len(f.DeepCallsTo(2, c04G+"(*Machine).maybeFinalize")) >= 1, "return handler must reach maybeFinalize")
 		}
 	}
 	if f := c.MustFunc(c04G + "(*Machine).maybeFinalize"); f != nil {
@@ -428,9 +434,13 @@ func c03(c *engine.Ctx) {
 			c.Check("finalize-on-return", "maybeFinalize", s.Pos(), ok, why)
 		}
 	}
+	var missing []string
+	for _, w := range []string{c04G + "(*Machine).maybeFinalize", c04G + "(*Machine).RunFiles", c04G + "(*Machine).saveNewPackageValuesAndTypes", c04G + "(*Machine).resavePackageValues"} {
+		if wf := c.MustFunc(w); wf != nil && len(wf.DeepCallsTo(2, fin)) == 0 {
+			missing = append(missing, w)
+		}
+	}
 	callers := gvaCallersOf(p, fin)
-	want := []string{c04G + "(*Machine).maybeFinalize", c04G + "(*Machine).RunFiles", c04G + "(*Machine).saveNewPackageValuesAndTypes", c04G + "(*Machine).resavePackageValues"}
-	missing := engine.SetDiff(want, callers)
 	if c03DumpHook != nil {
 		defer c03DumpHook(c)
 	}
